@@ -1,6 +1,8 @@
 import JominiModel.Model.TextReader
 import JominiModel.Spec.TextReader
 import JominiModel.Proofs.SwarReader
+import JominiModel.Proofs.TextReaderStream
+import JominiModel.Proofs.TextFault
 /-
 C09 (text): `skip_container`'s 8-bytes-at-a-time path is unobservable.
 `C09_*` theorems live here so that the coordinator can re-export them from Props/C09.lean.
@@ -242,5 +244,1075 @@ theorem C09_skipScan_eq_bytewise (w : Bytes) : ∀ (fuel : Nat) (st : SkipSt) (d
               simpa using this.symm
         · simp only [hbig, if_false]
           exact hbyte
+
+end Jomini.TextReader
+
+namespace Jomini.TextReader
+open Jomini Jomini.TextReader.Spec Jomini.TextReader.Swar
+
+/-! ### the bytewise reference as a left-to-right state machine -/
+
+def shiftSS (k : Nat) : SkipScan → SkipScan
+  | .done p => .done (p + k)
+  | .refill st d p => .refill st d (p + k)
+  | x => x
+
+theorem skipRef_quote_bs {c : UInt8} {tl : Bytes} {depth : Int} {ptr : Nat} (hc : (c == 92) = true) :
+    skipRef (c :: tl) .quote depth ptr =
+      match tl with
+      | [] => .refill .quote depth ptr
+      | [_] => .refill .quote depth ptr
+      | _ :: e :: r => skipRef (e :: r) .quote depth (ptr + 2) := by
+  rcases tl with _ | ⟨x, _ | ⟨d, r⟩⟩ <;> simp [skipRef, hc]
+
+theorem skipRef_none_cons (c : UInt8) (rest : Bytes) (depth : Int) (ptr : Nat) :
+    skipRef (c :: rest) .none depth ptr =
+      if c == 123 then skipRef rest .none (depth + 1) (ptr + 1)
+      else if c == 125 then
+        if depth - 1 == 0 then .done (ptr + 1) else skipRef rest .none (depth - 1) (ptr + 1)
+      else if c == 34 then skipRef rest .quote depth (ptr + 1)
+      else if c == 35 then skipRef rest .comment depth (ptr + 1)
+      else skipRef rest .none depth (ptr + 1) := by
+  rcases rest with _ | ⟨x, _ | ⟨d, r⟩⟩ <;> simp [skipRef]
+
+theorem skipRef_comment_cons (c : UInt8) (rest : Bytes) (depth : Int) (ptr : Nat) :
+    skipRef (c :: rest) .comment depth ptr =
+      if c == 10 then skipRef rest .none depth (ptr + 1) else skipRef rest .comment depth (ptr + 1) := by
+  rcases rest with _ | ⟨x, _ | ⟨d, r⟩⟩ <;> simp [skipRef]
+
+theorem skipRef_nil (st : SkipSt) (depth : Int) (ptr : Nat) : skipRef [] st depth ptr = .refill st depth ptr := by
+  cases st <;> simp [skipRef]
+
+theorem skipRef_shift (k : Nat) (n : Nat) : ∀ (l : Bytes) (st : SkipSt) (depth : Int) (ptr : Nat), l.length ≤ n →
+    skipRef l st depth (ptr + k) = shiftSS k (skipRef l st depth ptr) := by
+  induction n with
+  | zero =>
+    intro l st depth ptr hl
+    have : l = [] := List.eq_nil_of_length_eq_zero (by omega)
+    subst this; simp [skipRef_nil, shiftSS]
+  | succ n ih =>
+    intro l st depth ptr hl
+    cases l with
+    | nil => simp [skipRef_nil, shiftSS]
+    | cons c rest =>
+      have hr : rest.length ≤ n := by simp at hl; omega
+      have e : ptr + k + 1 = (ptr + 1) + k := by omega
+      cases st with
+      | none =>
+        simp only [skipRef_none_cons, e]
+        split; · exact ih rest _ _ _ hr
+        split
+        · split
+          · simp [shiftSS]
+          · exact ih rest _ _ _ hr
+        split; · exact ih rest _ _ _ hr
+        split; · exact ih rest _ _ _ hr
+        exact ih rest _ _ _ hr
+      | comment =>
+        simp only [skipRef_comment_cons, e]
+        split <;> exact ih rest _ _ _ hr
+      | quote =>
+        by_cases hc : (c == 92) = true
+        · simp only [skipRef_quote_bs hc]
+          rcases rest with _ | ⟨x, _ | ⟨d, r⟩⟩
+          · simp [shiftSS]
+          · simp [shiftSS]
+          · simp only
+            have e2 : ptr + k + 2 = (ptr + 2) + k := by omega
+            rw [e2]; exact ih (d :: r) _ _ _ (by simp at hr ⊢; omega)
+        · simp only [skipRef_quote_other hc, e]
+          split <;> exact ih rest _ _ _ hr
+
+/-- where a scan that ran out of bytes stopped: inside the list, at most two bytes before its end -/
+theorem skipRef_refill_bounds (n : Nat) : ∀ (l : Bytes) (st : SkipSt) (depth : Int) (ptr : Nat) (st' : SkipSt) (d' : Int) (p : Nat),
+    l.length ≤ n → skipRef l st depth ptr = .refill st' d' p → ptr ≤ p ∧ p ≤ ptr + l.length ∧ ptr + l.length ≤ p + 2 := by
+  induction n with
+  | zero =>
+    intro l st depth ptr st' d' p hl h
+    have : l = [] := List.eq_nil_of_length_eq_zero (by omega)
+    subst this; simp [skipRef_nil] at h; omega
+  | succ n ih =>
+    intro l st depth ptr st' d' p hl h
+    cases l with
+    | nil => simp [skipRef_nil] at h; simp; omega
+    | cons c rest =>
+      have hr : rest.length ≤ n := by simp at hl; omega
+      have fin : ∀ {st0 : SkipSt} {d0 : Int}, skipRef rest st0 d0 (ptr + 1) = .refill st' d' p →
+          ptr ≤ p ∧ p ≤ ptr + (c :: rest).length ∧ ptr + (c :: rest).length ≤ p + 2 := by
+        intro st0 d0 hh
+        have := ih rest st0 d0 (ptr + 1) st' d' p hr hh
+        simp; omega
+      cases st with
+      | none =>
+        rw [skipRef_none_cons] at h
+        split at h; · exact fin h
+        split at h
+        · split at h
+          · simp at h
+          · exact fin h
+        split at h; · exact fin h
+        split at h; · exact fin h
+        exact fin h
+      | comment =>
+        rw [skipRef_comment_cons] at h
+        split at h <;> exact fin h
+      | quote =>
+        by_cases hc : (c == 92) = true
+        · rw [skipRef_quote_bs hc] at h
+          rcases rest with _ | ⟨x, _ | ⟨d, r⟩⟩
+          · simp at h; simp; omega
+          · simp at h; simp; omega
+          · simp only at h
+            have := ih (d :: r) .quote depth (ptr + 2) st' d' p (by simp at hr ⊢; omega) h
+            simp at this ⊢; omega
+        · rw [skipRef_quote_other hc] at h
+          split at h <;> exact fin h
+
+/-- **refilling loses nothing**: scanning `w ++ b` is scanning `w` and, if that runs out of bytes at `p` in state
+`(st', d')`, continuing on the not yet consumed bytes of `w` followed by `b`. -/
+theorem skipRef_append (b : Bytes) (n : Nat) : ∀ (w : Bytes) (st : SkipSt) (depth : Int) (ptr : Nat), w.length ≤ n →
+    skipRef (w ++ b) st depth ptr =
+      match skipRef w st depth ptr with
+      | .done p => .done p
+      | .refill st' d' p => skipRef (w.drop (p - ptr) ++ b) st' d' p
+      | x => x := by
+  induction n with
+  | zero =>
+    intro w st depth ptr hl
+    have : w = [] := List.eq_nil_of_length_eq_zero (by omega)
+    subst this; simp [skipRef_nil]
+  | succ n ih =>
+    intro w st depth ptr hl
+    cases w with
+    | nil => simp [skipRef_nil]
+    | cons c rest =>
+      have hr : rest.length ≤ n := by simp at hl; omega
+      -- one byte consumed, then the induction hypothesis
+      have step : ∀ (st0 : SkipSt) (d0 : Int),
+          skipRef (rest ++ b) st0 d0 (ptr + 1) =
+            match skipRef rest st0 d0 (ptr + 1) with
+            | .done p => .done p
+            | .refill st' d' p => skipRef ((c :: rest).drop (p - ptr) ++ b) st' d' p
+            | x => x := by
+        intro st0 d0
+        rw [ih rest st0 d0 (ptr + 1) hr]
+        cases hs : skipRef rest st0 d0 (ptr + 1) with
+        | done p => rfl
+        | refill st' d' p =>
+          have := skipRef_refill_bounds _ rest st0 d0 (ptr + 1) st' d' p (Nat.le_refl _) hs
+          simp only
+          have e : p - ptr = (p - (ptr + 1)) + 1 := by omega
+          rw [e]; rfl
+        | ub => rfl
+        | fuel => rfl
+      cases st with
+      | none =>
+        simp only [List.cons_append, skipRef_none_cons]
+        split; · exact step _ _
+        split
+        · split
+          · rfl
+          · exact step _ _
+        split; · exact step _ _
+        split; · exact step _ _
+        exact step _ _
+      | comment =>
+        simp only [List.cons_append, skipRef_comment_cons]
+        split <;> exact step _ _
+      | quote =>
+        by_cases hc : (c == 92) = true
+        · rcases rest with _ | ⟨x, _ | ⟨d, r⟩⟩
+          · simp [skipRef_quote_bs hc]
+          · simp [skipRef_quote_bs hc]
+          · simp only [List.cons_append, skipRef_quote_bs hc]
+            rw [show d :: (r ++ b) = (d :: r) ++ b by rfl, ih (d :: r) .quote depth (ptr + 2) (by simp at hr ⊢; omega)]
+            cases hs : skipRef (d :: r) .quote depth (ptr + 2) with
+            | done p => rfl
+            | refill st' d' p =>
+              have := skipRef_refill_bounds _ (d :: r) .quote depth (ptr + 2) st' d' p (Nat.le_refl _) hs
+              simp only
+              have e : p - ptr = (p - (ptr + 2)) + 2 := by omega
+              rw [e]; rfl
+            | ub => rfl
+            | fuel => rfl
+        · simp only [List.cons_append, skipRef_quote_other hc]
+          split <;> exact step _ _
+
+end Jomini.TextReader
+
+namespace Jomini.TextReader
+open Jomini Jomini.TextReader.Spec Jomini.TextReader.Swar
+
+theorem skipRef_done_bounds (n : Nat) : ∀ (l : Bytes) (st : SkipSt) (depth : Int) (ptr p : Nat),
+    l.length ≤ n → skipRef l st depth ptr = .done p → ptr < p ∧ p ≤ ptr + l.length := by
+  induction n with
+  | zero =>
+    intro l st depth ptr p hl h
+    have : l = [] := List.eq_nil_of_length_eq_zero (by omega)
+    subst this; simp [skipRef_nil] at h
+  | succ n ih =>
+    intro l st depth ptr p hl h
+    cases l with
+    | nil => simp [skipRef_nil] at h
+    | cons c rest =>
+      have hr : rest.length ≤ n := by simp at hl; omega
+      have fin : ∀ {st0 : SkipSt} {d0 : Int}, skipRef rest st0 d0 (ptr + 1) = .done p →
+          ptr < p ∧ p ≤ ptr + (c :: rest).length := by
+        intro st0 d0 hh
+        have := ih rest st0 d0 (ptr + 1) p hr hh
+        simp; omega
+      cases st with
+      | none =>
+        rw [skipRef_none_cons] at h
+        split at h; · exact fin h
+        split at h
+        · split at h
+          · simp at h; subst h; simp
+          · exact fin h
+        split at h; · exact fin h
+        split at h; · exact fin h
+        exact fin h
+      | comment =>
+        rw [skipRef_comment_cons] at h
+        split at h <;> exact fin h
+      | quote =>
+        by_cases hc : (c == 92) = true
+        · rw [skipRef_quote_bs hc] at h
+          rcases rest with _ | ⟨x, _ | ⟨d, r⟩⟩
+          · simp at h
+          · simp at h
+          · simp only at h
+            have := ih (d :: r) .quote depth (ptr + 2) p (by simp at hr ⊢; omega) h
+            simp at this ⊢; omega
+        · rw [skipRef_quote_other hc] at h
+          split at h <;> exact fin h
+
+/-- what `skip_container` must return according to the bytewise reference over the whole remaining input `d` -/
+def SkipOut (res : Res Unit) (cap pos : Nat) (bom : Bom) (d : Bytes) (st : SkipSt) (depth : Int) : Prop :=
+  match skipRef d st depth 0 with
+  | .done p => ∃ r', res = .ok r' () ∧ Rel r' (pos + p) bom (d.drop p) ∧ r'.cap = cap
+  | .refill _ _ _ => ∃ r', res = .err r' .eof
+  | _ => True
+
+/-- **`skip_container` under every schedule**: with a slice reader or a buffer of at least three bytes (the scan carries
+at most a backslash and the byte after it across a refill), the streamed skip either reports an I/O error of the `Read`,
+or it does exactly what the bytewise reference does on the whole remaining input: it stops right after the matching
+close (reader related to the rest), or reports `Eof` when the input ends first. -/
+theorem skipLoop_spec (n : Nat) : ∀ (r : Reader) (pos : Nat) (bom : Bom) (d : Bytes) (st : SkipSt) (depth : Int) (fuel : Nat),
+    r.src.rest.length ≤ n → Rel r pos bom d → (r.cap = 0 ∨ 3 ≤ r.cap) → n + 1 ≤ fuel →
+    (∃ r', skipLoop fuel r st depth 0 = .err r' .io) ∨
+    SkipOut (skipLoop fuel r st depth 0) r.cap pos bom d st depth := by
+  induction n with
+  | zero =>
+    intro r pos bom d st depth fuel hn hrel hcap hfuel
+    obtain ⟨f, rfl⟩ : ∃ f, fuel = f + 1 := ⟨fuel - 1, by omega⟩
+    have he : r.src.rest = [] := List.eq_nil_of_length_eq_zero (by omega)
+    have hd : d = r.win := by rw [← hrel.data, he]; simp
+    have hscan : skipScan r.win (r.win.length + 2) st depth 0 = skipRef r.win st depth 0 := by
+      have := C09_skipScan_eq_bytewise r.win (r.win.length + 2) st depth 0 (Nat.zero_le _) (by omega)
+      simpa using this
+    rw [skipLoop, hscan]
+    unfold SkipOut
+    rw [hd]
+    cases hs : skipRef r.win st depth 0 with
+    | done p =>
+      right
+      have hb := skipRef_done_bounds _ r.win st depth 0 p (Nat.le_refl _) hs
+      obtain ⟨r', ha, hrel', _, _, hc'⟩ := hrel.advance p (by omega)
+      simp only [ha]
+      rw [hd] at hrel'
+      exact ⟨r', rfl, hrel', hc'⟩
+    | refill st' d' p =>
+      have hb := skipRef_refill_bounds _ r.win st depth 0 st' d' p (Nat.le_refl _) hs
+      obtain ⟨r0, ha, hrel0, hw0, hs0, hc0⟩ := hrel.advance p (by omega)
+      simp only [ha]
+      have hrest0 : r0.src.rest = [] := by rw [hs0]; exact he
+      rcases hrel0.fill with ⟨rio, hf, _⟩ | ⟨hf, h1, h2⟩ | ⟨_, r1, hf, _⟩ | ⟨hne, _⟩
+      · left; rw [hf]; exact ⟨rio, rfl⟩
+      · exfalso
+        have : r0.win.length ≤ 2 := by rw [hw0]; simp; omega
+        rcases hcap with h | h
+        · exact h1 (by rw [hc0]; exact h)
+        · rw [hc0] at h2; omega
+      · right; rw [hf]; exact ⟨r1, rfl⟩
+      · exact absurd hrest0 hne
+    | ub => right; trivial
+    | fuel => right; trivial
+  | succ n ih =>
+    intro r pos bom d st depth fuel hn hrel hcap hfuel
+    obtain ⟨f, rfl⟩ : ∃ f, fuel = f + 1 := ⟨fuel - 1, by omega⟩
+    have hd : d = r.win ++ r.src.rest := hrel.data.symm
+    have hscan : skipScan r.win (r.win.length + 2) st depth 0 = skipRef r.win st depth 0 := by
+      have := C09_skipScan_eq_bytewise r.win (r.win.length + 2) st depth 0 (Nat.zero_le _) (by omega)
+      simpa using this
+    have happ := skipRef_append r.src.rest _ r.win st depth 0 (Nat.le_refl _)
+    rw [← hd] at happ
+    rw [skipLoop, hscan]
+    unfold SkipOut
+    cases hs : skipRef r.win st depth 0 with
+    | done p =>
+      right
+      rw [hs] at happ
+      simp only at happ
+      rw [happ]
+      have hb := skipRef_done_bounds _ r.win st depth 0 p (Nat.le_refl _) hs
+      obtain ⟨r', ha, hrel', _, _, hc'⟩ := hrel.advance p (by omega)
+      simp only [ha]
+      exact ⟨r', rfl, hrel', hc'⟩
+    | refill st' d' p =>
+      rw [hs] at happ
+      simp only [Nat.sub_zero] at happ
+      have hb := skipRef_refill_bounds _ r.win st depth 0 st' d' p (Nat.le_refl _) hs
+      obtain ⟨r0, ha, hrel0, hw0, hs0, hc0⟩ := hrel.advance p (by omega)
+      simp only [ha]
+      have hdp : d.drop p = r.win.drop p ++ r.src.rest := by rw [hd, List.drop_append_of_le_length (by omega)]
+      rw [hdp] at hrel0
+      rcases hrel0.fill with ⟨rio, hf, _⟩ | ⟨hf, h1, h2⟩ | ⟨he0, r1, hf, _⟩ | ⟨hne, r1, k, hf, hrel1, hk, hw1, hr1, hc1, _⟩
+      · left; rw [hf]; exact ⟨rio, rfl⟩
+      · exfalso
+        have : r0.win.length ≤ 2 := by rw [hw0]; simp; omega
+        rcases hcap with h | h
+        · exact h1 (by rw [hc0]; exact h)
+        · rw [hc0] at h2; omega
+      · right
+        rw [hf]
+        have he : r.src.rest = [] := by rw [← hs0]; exact he0
+        have : d = r.win := by rw [hd, he]; simp
+        rw [this, hs]
+        exact ⟨r1, rfl⟩
+      · rw [hf]
+        simp only
+        rw [hs0] at hk hr1
+        have hl1 : r1.src.rest.length ≤ n := by rw [hr1]; simp; omega
+        have hcap1 : r1.cap = 0 ∨ 3 ≤ r1.cap := by rw [hc1, hc0]; exact hcap
+        rcases ih r1 (pos + p) bom _ st' d' f hl1 hrel1 hcap1 (by omega) with hio | hok
+        · left; exact hio
+        · right
+          rw [happ]
+          have hsh := skipRef_shift p _ (r.win.drop p ++ r.src.rest) st' d' 0 (Nat.le_refl _)
+          simp only [Nat.zero_add] at hsh
+          rw [hsh]
+          unfold SkipOut at hok
+          cases hx : skipRef (r.win.drop p ++ r.src.rest) st' d' 0 with
+          | done q =>
+            rw [hx] at hok
+            simp only [shiftSS] at hok ⊢
+            obtain ⟨r', h1, h2, h3⟩ := hok
+            refine ⟨r', h1, ?_, by rw [h3, hc1, hc0]⟩
+            have e1 : pos + (q + p) = pos + p + q := by omega
+            have e2 : d.drop (q + p) = (r.win.drop p ++ r.src.rest).drop q := by
+              rw [← hdp, List.drop_drop]; congr 1; omega
+            rw [e1, e2]; exact h2
+          | refill a b c => rw [hx] at hok; simpa [shiftSS] using hok
+          | ub => simp [shiftSS]
+          | fuel => simp [shiftSS]
+    | ub => right; rw [hs] at happ; simp only at happ; rw [happ]; trivial
+    | fuel => right; rw [hs] at happ; simp only at happ; rw [happ]; trivial
+
+end Jomini.TextReader
+
+namespace Jomini.TextReader
+open Jomini Jomini.TextReader.Spec Jomini.TextReader.Swar
+
+/-! ### the bytewise reference against reading tokens and counting opens and closes -/
+
+/-- bytes the skipper's `None` state gives a meaning to -/
+def skipSpecial (x : UInt8) : Bool := x == 123 || x == 125 || x == 34 || x == 35
+
+/-- a token whose bytes the byte-level skipper reads the way the tokenizer does: an unquoted scalar (or `@[…]`) must not
+contain `{`, `}`, `"` or `#` -/
+def skipSafeTok : Token → Bool
+  | .unquoted b => b.all (fun x => !skipSpecial x)
+  | _ => true
+
+/-- **the reference the property names**: read tokens with the reference lexer and count opens and closes; the result is
+the offset (from the start of `d`) just after the close that brings the depth to 0.  `none`: the input ends first, a
+token is not skip-safe, or `n` tokens were not enough. -/
+def balancedSkip : Nat → Nat → Bom → Bytes → Int → Option Nat
+  | 0, _, _, _, _ => none
+  | n + 1, pos, bom, d, depth =>
+    match specStep (pos == 0) bom d with
+    | some (.tok adv t b') =>
+      if !skipSafeTok t then none
+      else
+        match t with
+        | .open_ => (balancedSkip n (pos + adv) b' (d.drop adv) (depth + 1)).map (· + adv)
+        | .close =>
+          if depth - 1 == 0 then some adv
+          else (balancedSkip n (pos + adv) b' (d.drop adv) (depth - 1)).map (· + adv)
+        | _ => (balancedSkip n (pos + adv) b' (d.drop adv) depth).map (· + adv)
+    | _ => none
+
+theorem skipRef_plain_run (l rest : Bytes) (depth : Int) (ptr : Nat) (h : ∀ x ∈ l, skipSpecial x = false) :
+    skipRef (l ++ rest) .none depth ptr = skipRef rest .none depth (ptr + l.length) := by
+  induction l generalizing ptr with
+  | nil => simp
+  | cons c l ih =>
+    have hc := h c (by simp)
+    simp only [skipSpecial, Bool.or_eq_false_iff] at hc
+    simp only [List.cons_append, skipRef_none_cons, hc.1.1.1, hc.1.1.2, hc.1.2, hc.2, Bool.false_eq_true, if_false]
+    rw [ih (ptr + 1) (fun x hx => h x (by simp [hx]))]
+    simp; congr 1; omega
+
+theorem skipRef_comment_run (a rest : Bytes) (depth : Int) (ptr : Nat) (ha : ∀ x ∈ a, (x == 10) = false) :
+    skipRef (a ++ 10 :: rest) .comment depth ptr = skipRef rest .none depth (ptr + a.length + 1) := by
+  induction a generalizing ptr with
+  | nil => simp [skipRef_comment_cons]
+  | cons c a ih =>
+    have hc := ha c (by simp)
+    simp only [List.cons_append, skipRef_comment_cons, hc, Bool.false_eq_true, if_false]
+    rw [ih (ptr + 1) (fun x hx => ha x (by simp [hx]))]
+    simp; congr 1; omega
+
+theorem blank_not_special (c : UInt8) (h : isBlank c = true) : skipSpecial c = false := by
+  unfold isBlank at h; unfold skipSpecial
+  simp only [Bool.or_eq_true, beq_iff_eq] at h
+  rcases h with (((h | h) | h) | h) | h <;> subst h <;> decide
+
+/-- what the tokenizer skips between tokens, the skipper passes in its `None` state at the same depth -/
+theorem Skips.skipRef {pos0 : Bool} {pre : Bytes} {i : Nat} {bom bom' : Bom} (h : Skips pos0 pre i bom bom')
+    (x : Bytes) (depth : Int) (ptr : Nat) :
+    TextReader.Spec.skipRef (pre ++ x) .none depth ptr = TextReader.Spec.skipRef x .none depth (ptr + pre.length) := by
+  induction h generalizing ptr with
+  | nil => simp
+  | @blank c pre i bom bom' hb _ ih =>
+    have hc := blank_not_special c hb
+    simp only [skipSpecial, Bool.or_eq_false_iff] at hc
+    simp only [List.cons_append, skipRef_none_cons, hc.1.1.1, hc.1.1.2, hc.1.2, hc.2, Bool.false_eq_true, if_false]
+    rw [ih]; simp; congr 1; omega
+  | @comment a pre i bom bom' ha _ ih =>
+    simp only [List.cons_append, skipRef_none_cons]
+    simp only [show ((35 : UInt8) == 123) = false by decide, show ((35 : UInt8) == 125) = false by decide,
+      show ((35 : UInt8) == 34) = false by decide, Bool.false_eq_true, if_false, beq_self_eq_true, if_true, List.append_assoc, List.cons_append]
+    rw [skipRef_comment_run a _ depth (ptr + 1) ha, ih]
+    simp; congr 1; omega
+  | @bom pre bom' _ _ ih =>
+    have := skipRef_plain_run [0xef, 0xbb, 0xbf] (pre ++ x) depth ptr (by intro y hy; simp at hy; rcases hy with rfl | rfl | rfl <;> decide)
+    simp only [List.cons_append, List.nil_append] at this
+    simp only [List.cons_append]
+    rw [this, ih]; simp; congr 1; omega
+
+/-- a quoted scalar: the skipper's `Quote` state finds the closing quote the tokenizer finds -/
+theorem skipRef_quoted (n0 : Nat) : ∀ (tl : Bytes) (n : Nat) (depth : Int) (ptr i : Nat), tl.length ≤ n0 →
+    quoteEnd tl i = some n →
+    skipRef tl .quote depth ptr = skipRef (tl.drop (n - i + 1)) .none depth (ptr + (n - i) + 1) := by
+  induction n0 with
+  | zero =>
+    intro tl n depth ptr i hl h
+    have : tl = [] := List.eq_nil_of_length_eq_zero (by omega)
+    subst this; simp [quoteEnd] at h
+  | succ n0 ih =>
+    intro tl n depth ptr i hl h
+    cases tl with
+    | nil => simp [quoteEnd] at h
+    | cons c rest =>
+      have hr : rest.length ≤ n0 := by simp at hl; omega
+      by_cases hc : (c == 92) = true
+      · rcases rest with _ | ⟨x, r⟩
+        · rw [quoteEnd_bs1 hc] at h; simp at h
+        · rw [quoteEnd_bs2 hc] at h
+          have hb := quoteEnd_bounds h
+          rcases r with _ | ⟨e, r'⟩
+          · simp [quoteEnd] at h
+          · rw [skipRef_quote_bs hc]
+            simp only
+            have := ih (e :: r') n depth (ptr + 2) (i + 2) (by simp at hr ⊢; omega) h
+            rw [this]
+            have e1 : n - i + 1 = (n - (i + 2) + 1) + 2 := by omega
+            have e2 : ptr + 2 + (n - (i + 2)) + 1 = ptr + (n - i) + 1 := by omega
+            rw [e1, e2]; rfl
+      · by_cases hq : (c != 34) = true
+        · rw [quoteEnd_other hc hq] at h
+          have hb := quoteEnd_bounds h
+          rw [skipRef_quote_other hc]
+          simp only [hq, if_true]
+          have := ih rest n depth (ptr + 1) (i + 1) hr h
+          rw [this]
+          have e1 : n - i + 1 = (n - (i + 1) + 1) + 1 := by omega
+          have e2 : ptr + 1 + (n - (i + 1)) + 1 = ptr + (n - i) + 1 := by omega
+          rw [e1, e2]; rfl
+        · rw [quoteEnd_quote hc hq] at h
+          simp only [Option.some.injEq] at h
+          subst h
+          rw [skipRef_quote_other hc]
+          simp only [hq, Bool.false_eq_true, if_false]
+          simp
+
+end Jomini.TextReader
+
+namespace Jomini.TextReader
+open Jomini Jomini.TextReader.Spec Jomini.TextReader.Swar
+
+/-- effect of one token on the skipper: continue on `rest` at offset `q` -/
+def stepResult (t : Token) (depth : Int) (rest : Bytes) (q : Nat) : SkipScan :=
+  match t with
+  | .open_ => skipRef rest .none (depth + 1) q
+  | .close => if depth - 1 == 0 then .done q else skipRef rest .none (depth - 1) q
+  | _ => skipRef rest .none depth q
+
+theorem skip_take (l : Bytes) (m : Nat) (depth : Int) (p : Nat) (hsafe : ∀ x ∈ l.take m, skipSpecial x = false) (hm : m ≤ l.length) :
+    skipRef l .none depth p = skipRef (l.drop m) .none depth (p + m) := by
+  have := skipRef_plain_run (l.take m) (l.drop m) depth p hsafe
+  rw [List.take_append_drop] at this
+  rw [this]; simp; congr 1; omega
+
+theorem unqTok_skip {c : UInt8} {tl : Bytes} {i adv : Nat} {t : Token} (depth : Int) (p : Nat)
+    (h : unqTok c tl i = .tok adv t) (hs : skipSafeTok t = true) :
+    i < adv ∧ adv ≤ i + 1 + tl.length ∧
+    skipRef (c :: tl) .none depth p = stepResult t depth ((c :: tl).drop (adv - i)) (p + (adv - i)) := by
+  unfold unqTok at h
+  cases hf : findIdx isBoundary tl 0 with
+  | none => rw [hf] at h; simp at h
+  | some k =>
+    rw [hf] at h
+    simp only [Scan.tok.injEq] at h
+    obtain ⟨rfl, rfl⟩ := h
+    have hb := findIdx_some_bounds hf
+    refine ⟨by omega, by omega, ?_⟩
+    simp only [skipSafeTok, List.all_eq_true, Bool.not_eq_true'] at hs
+    have e : i + 1 + k - i = 1 + k := by omega
+    rw [e]
+    simp only [stepResult]
+    exact skip_take (c :: tl) (1 + k) depth p hs (by simp; omega)
+
+theorem tokenAt_skip {c : UInt8} {tl : Bytes} {i adv : Nat} {t : Token} (depth : Int) (p : Nat)
+    (h : tokenAt c tl i = .tok adv t) (hs : skipSafeTok t = true) :
+    i < adv ∧ adv ≤ i + 1 + tl.length ∧
+    skipRef (c :: tl) .none depth p = stepResult t depth ((c :: tl).drop (adv - i)) (p + (adv - i)) := by
+  unfold tokenAt at h
+  split at h
+  · rename_i hc
+    simp only [Scan.tok.injEq] at h; obtain ⟨rfl, rfl⟩ := h
+    refine ⟨by omega, by omega, ?_⟩
+    simp [skipRef_none_cons, hc, stepResult]
+  split at h
+  · rename_i h1 hc
+    simp only [Scan.tok.injEq] at h; obtain ⟨rfl, rfl⟩ := h
+    refine ⟨by omega, by omega, ?_⟩
+    have h1' : (c == 123) = false := by simpa using h1
+    simp [skipRef_none_cons, h1', hc, stepResult]
+  split at h
+  · rename_i h1 h2 hc
+    unfold quoteTok at h
+    cases hq : quoteScan tl 0 with
+    | more _ _ => rw [hq] at h; simp at h
+    | closed n =>
+      rw [hq] at h
+      simp only [Scan.tok.injEq] at h; obtain ⟨rfl, rfl⟩ := h
+      have he := quoteScan_closed hq
+      have hb := quoteEnd_bounds he
+      refine ⟨by omega, by omega, ?_⟩
+      have h1' : (c == 123) = false := by simpa using h1
+      have h2' : (c == 125) = false := by simpa using h2
+      simp only [skipRef_none_cons, h1', h2', hc, Bool.false_eq_true, if_false, if_true, stepResult]
+      rw [skipRef_quoted _ tl n depth (p + 1) 0 (Nat.le_refl _) he]
+      have e : i + 1 + n + 1 - i = (n + 1) + 1 := by omega
+      rw [e]
+      simp only [Nat.sub_zero, List.drop_succ_cons]
+      congr 1; omega
+  -- every remaining arm consumes bytes that are plain for the skipper
+  have hop2 : ∀ {a b : Op}, opTok2 a b tl i = .tok adv t → skipSpecial c = false →
+      i < adv ∧ adv ≤ i + 1 + tl.length ∧
+      skipRef (c :: tl) .none depth p = stepResult t depth ((c :: tl).drop (adv - i)) (p + (adv - i)) := by
+    intro a b h hc
+    unfold opTok2 at h
+    cases tl with
+    | nil => simp at h
+    | cons d r =>
+      simp only at h
+      split at h
+      · simp only [Scan.tok.injEq] at h; obtain ⟨rfl, rfl⟩ := h
+        refine ⟨by omega, by simp, ?_⟩
+        have e : i + 1 - i = 1 := by omega
+        rw [e]; simp only [stepResult]
+        exact skip_take (c :: d :: r) 1 depth p (by simp [hc]) (by simp)
+      · rename_i hd
+        simp only [Scan.tok.injEq] at h; obtain ⟨rfl, rfl⟩ := h
+        refine ⟨by omega, by simp; omega, ?_⟩
+        have e : i + 2 - i = 2 := by omega
+        rw [e]; simp only [stepResult]
+        have hd61 : d = 61 := by simpa using hd
+        exact skip_take (c :: d :: r) 2 depth p (by subst hd61; intro x hx; simp at hx; rcases hx with rfl | rfl; exact hc; decide) (by simp)
+  have hop1 : ∀ {o : Op}, opTok1 o tl i = .tok adv t → skipSpecial c = false →
+      i < adv ∧ adv ≤ i + 1 + tl.length ∧
+      skipRef (c :: tl) .none depth p = stepResult t depth ((c :: tl).drop (adv - i)) (p + (adv - i)) := by
+    intro o h hc
+    unfold opTok1 at h
+    cases tl with
+    | nil => simp at h
+    | cons d r =>
+      simp only at h
+      split at h
+      · rename_i hd
+        simp only [Scan.tok.injEq] at h; obtain ⟨rfl, rfl⟩ := h
+        refine ⟨by omega, by simp; omega, ?_⟩
+        have e : i + 2 - i = 2 := by omega
+        rw [e]; simp only [stepResult]
+        have hd61 : d = 61 := by simpa using hd
+        exact skip_take (c :: d :: r) 2 depth p (by subst hd61; intro x hx; simp at hx; rcases hx with rfl | rfl; exact hc; decide) (by simp)
+      · simp only [Scan.tok.injEq] at h; obtain ⟨rfl, rfl⟩ := h
+        refine ⟨by omega, by simp, ?_⟩
+        have e : i + 1 - i = 1 := by omega
+        rw [e]; simp only [stepResult]
+        exact skip_take (c :: d :: r) 1 depth p (by simp [hc]) (by simp)
+  split at h
+  · -- '@'
+    unfold atTok at h
+    cases tl with
+    | nil => simp at h
+    | cons d r =>
+      simp only at h
+      split at h
+      · cases hf : findIdx (· == 93) r 0 with
+        | none => rw [hf] at h; simp at h
+        | some k =>
+          rw [hf] at h
+          simp only [Scan.tok.injEq] at h; obtain ⟨rfl, rfl⟩ := h
+          have hb := findIdx_some_bounds hf
+          refine ⟨by omega, by simp; omega, ?_⟩
+          simp only [skipSafeTok, List.all_eq_true, Bool.not_eq_true'] at hs
+          have e : i + 2 + k + 1 - i = 2 + k + 1 := by omega
+          rw [e]; simp only [stepResult]
+          exact skip_take (c :: d :: r) (2 + k + 1) depth p hs (by simp; omega)
+      · exact unqTok_skip depth p h hs
+  split at h; · rename_i hc; exact hop2 h (by rw [eq_of_beq hc]; decide)
+  split at h; · rename_i hc; exact hop2 h (by rw [eq_of_beq hc]; decide)
+  split at h; · rename_i hc; exact hop1 h (by rw [eq_of_beq hc]; decide)
+  split at h; · rename_i hc; exact hop1 h (by rw [eq_of_beq hc]; decide)
+  split at h; · rename_i hc; exact hop2 h (by rw [eq_of_beq hc]; decide)
+  exact unqTok_skip depth p h hs
+
+end Jomini.TextReader
+
+namespace Jomini.TextReader
+open Jomini Jomini.TextReader.Spec Jomini.TextReader.Swar
+
+/-- the reference step sees a token start `c` after the skipped prefix `pre` -/
+theorem interp_token_skip {pre tl : Bytes} {c : UInt8} {bomR b' : Bom} {adv : Nat} {t : Token} (depth : Int)
+    (h35 : (c == 35) = false)
+    (h : interp (pre ++ c :: tl) (bomR, tokenAt c tl pre.length) = some (.tok adv t b'))
+    (hs : skipSafeTok t = true) :
+    skipRef (c :: tl) .none depth pre.length = stepResult t depth ((pre ++ c :: tl).drop adv) adv := by
+  have hlen : (pre ++ c :: tl).length = pre.length + 1 + tl.length := by simp; omega
+  cases htok : tokenAt c tl pre.length with
+  | bomFill => exact absurd htok (tokenAt_not_bomFill _ _ _)
+  | tok adv' t' =>
+    rw [htok] at h
+    simp only [interp, Option.some.injEq, Step1.tok.injEq] at h
+    obtain ⟨rfl, rfl, _⟩ := h
+    obtain ⟨h1, h2, h3⟩ := tokenAt_skip depth pre.length htok hs
+    rw [h3]
+    have e1 : pre.length + (adv' - pre.length) = adv' := by omega
+    have e2 : (pre ++ c :: tl).drop adv' = (c :: tl).drop (adv' - pre.length) := by
+      rw [List.drop_append]; simp; omega
+    rw [e1, e2]
+  | refill st carry off =>
+    rw [htok] at h
+    rcases tokenAt_refill htok with ⟨rfl, hc, _⟩ | ⟨rfl, _, _⟩ | ⟨rfl, _, hc, _, _⟩
+    · exfalso
+      subst hc
+      simp only [interp] at h
+      have hne : (tl.length + 1 == 0) = false := by simp
+      simp only [hne, Bool.false_eq_true, if_false] at h
+      have hd : (pre ++ c :: tl).drop ((pre ++ c :: tl).length - (tl.length + 1)) = c :: tl := by
+        rw [hlen]; have : pre.length + 1 + tl.length - (tl.length + 1) = pre.length := by omega
+        rw [this]; simp
+      rw [hd] at h
+      simp [h35] at h
+    · simp [interp] at h
+    · subst hc
+      simp only [interp, Option.some.injEq, Step1.tok.injEq] at h
+      obtain ⟨rfl, rfl, _⟩ := h
+      have hd : (pre ++ c :: tl).drop ((pre ++ c :: tl).length - (tl.length + 1)) = c :: tl := by
+        rw [hlen]; have : pre.length + 1 + tl.length - (tl.length + 1) = pre.length := by omega
+        rw [this]; simp
+      rw [hd] at hs ⊢
+      simp only [skipSafeTok, List.all_eq_true, Bool.not_eq_true'] at hs
+      simp only [stepResult, List.drop_length]
+      have := skip_take (c :: tl) (c :: tl).length depth pre.length (by rw [List.take_length]; exact hs) (Nat.le_refl _)
+      rw [this, hlen]; simp; congr 1; omega
+
+/-- **one token, the tokenizer's view and the skipper's view**: if the reference step reads the skip-safe token `t`
+consuming `adv` bytes, the bytewise skipper passes exactly those bytes and has counted `t`. -/
+theorem specStep_skip {pos0 : Bool} {bom b' : Bom} {d : Bytes} {adv : Nat} {t : Token} (depth : Int)
+    (h : specStep pos0 bom d = some (.tok adv t b')) (hs : skipSafeTok t = true) :
+    skipRef d .none depth 0 = stepResult t depth (d.drop adv) adv := by
+  obtain ⟨pre, tail, bom_s, rfl, hsk, ht⟩ := decompose pos0 d.length d 0 bom (Nat.le_refl _)
+  simp only [Nat.zero_add] at ht
+  rw [hsk.skipRef, Nat.zero_add]
+  unfold specStep at h
+  rw [hsk.fbLoop, Nat.zero_add] at h
+  rcases fbLoop_tail ht with ⟨rfl, h1⟩ | ⟨a, rfl, h1⟩ | ⟨c, tl, bomR, rfl, h35, _, h1⟩ | ⟨tl, rfl, hlt, hbc, h1⟩
+  · rw [h1] at h; simp [interp] at h
+  · rw [h1] at h
+    simp only [interp] at h
+    have hne : ((35 :: a).length == 0) = false := by simp
+    simp only [hne, Bool.false_eq_true, if_false] at h
+    have hd : (pre ++ 35 :: a).drop ((pre ++ 35 :: a).length - (35 :: a).length) = 35 :: a := by simp
+    rw [hd] at h
+    simp at h
+  · have h1' := h1 []
+    simp only [List.append_nil] at h1'
+    rw [h1'] at h
+    have hnb := tokenAt_not_bomFill c tl pre.length
+    have h' : interp (pre ++ c :: tl) (bomR, tokenAt c tl pre.length) = some (.tok adv t b') := by
+      cases htk : tokenAt c tl pre.length with
+      | bomFill => exact absurd htk hnb
+      | tok _ _ => rw [htk] at h; exact h
+      | refill _ _ _ => rw [htk] at h; exact h
+    exact interp_token_skip depth h35 h' hs
+  · -- fewer than three bytes starting with 0xEF: not a BOM, the scan with the BOM ruled out decides
+    obtain ⟨_, hbu, hj, hp⟩ := hbc
+    have hpre : pre = [] := List.eq_nil_of_length_eq_zero hj
+    subst hpre
+    rw [h1] at h
+    simp only [List.nil_append] at h ⊢
+    have hnbc : ¬BomCheck pos0 0xef 0 .notPresent := by simp [BomCheck]
+    have hfN := fbLoop_token (pos0 := pos0) (r := tl) (j := 0) (bom := .notPresent) (c := 0xef) (by decide) (by decide) hnbc
+    rw [hfN] at h
+    have h' : interp (([] : Bytes) ++ 0xef :: tl) (bomAfter 0xef .notPresent, tokenAt 0xef tl ([] : Bytes).length) = some (.tok adv t b') := by
+      simpa using h
+    have := interp_token_skip (pre := []) depth (by decide) h' hs
+    simpa using this
+
+/-- **reading tokens and counting opens and closes = the bytewise skipper**: if token counting over skip-safe tokens
+finds the matching close and lands at offset `q`, the bytewise reference stops exactly there. -/
+theorem balancedSkip_skipRef (n : Nat) : ∀ (pos : Nat) (bom : Bom) (d : Bytes) (depth : Int) (q : Nat),
+    balancedSkip n pos bom d depth = some q → skipRef d .none depth 0 = .done q := by
+  induction n with
+  | zero => intro pos bom d depth q h; simp [balancedSkip] at h
+  | succ n ih =>
+    intro pos bom d depth q h
+    rw [balancedSkip] at h
+    cases hsp : specStep (pos == 0) bom d with
+    | none => rw [hsp] at h; simp at h
+    | some st =>
+      rw [hsp] at h
+      cases st with
+      | end_ _ => simp at h
+      | eof _ _ => simp at h
+      | tok adv t b' =>
+        simp only at h
+        by_cases hs : skipSafeTok t = true
+        · simp only [hs, Bool.not_true, Bool.false_eq_true, if_false] at h
+          rw [specStep_skip depth hsp hs]
+          have cont : ∀ depth', (balancedSkip n (pos + adv) b' (d.drop adv) depth').map (· + adv) = some q →
+              skipRef (d.drop adv) .none depth' adv = .done q := by
+            intro depth' hh
+            cases hb : balancedSkip n (pos + adv) b' (d.drop adv) depth' with
+            | none => rw [hb] at hh; simp at hh
+            | some q' =>
+              rw [hb] at hh
+              simp only [Option.map_some, Option.some.injEq] at hh
+              have := ih _ _ _ _ _ hb
+              have hsh := skipRef_shift adv _ (d.drop adv) .none depth' 0 (Nat.le_refl _)
+              simp only [Nat.zero_add] at hsh
+              rw [hsh, this]; simp [shiftSS, hh]
+          cases t with
+          | open_ => simp only [stepResult]; exact cont _ h
+          | close =>
+            simp only [stepResult]
+            by_cases hz : (depth - 1 == 0) = true
+            · simp only [hz, if_true, Option.some.injEq] at h ⊢; rw [h]
+            · simp only [hz, Bool.false_eq_true, if_false] at h ⊢; exact cont _ h
+          | op o => simp only [stepResult]; exact cont _ h
+          | unquoted b => simp only [stepResult]; exact cont _ h
+          | quoted b => simp only [stepResult]; exact cont _ h
+        · simp [hs] at h
+
+/-- **C09 (text), `skip_container` lands exactly after the matching close.**  Let the reader be related to the remaining
+input `d` (it has just returned the `Open` token), the schedule fault-free, the reader a slice reader or its buffer at
+least three bytes.  If reading tokens with the reference lexer and counting opens and closes — over skip-safe tokens:
+quoted scalars may contain anything (braces, escapes, `#`), comments may contain anything, unquoted scalars and `@[…]`
+contain no `{ } " #` — reaches the matching close at offset `q`, then `skip_container` succeeds and leaves the reader
+related to `d.drop q`, i.e. at exactly the token that follows the matching close, under every read schedule. -/
+theorem C09_text_skip (r : Reader) (pos : Nat) (bom : Bom) (d : Bytes) (n q fuel : Nat)
+    (hrel : Rel r pos bom d) (hnf : NoFaults r.src.sched) (hcap : r.cap = 0 ∨ 3 ≤ r.cap)
+    (hfuel : r.src.rest.length + 1 ≤ fuel)
+    (hbal : balancedSkip n pos bom d 1 = some q) :
+    ∃ r', skipContainer fuel r = .ok r' () ∧ Rel r' (pos + q) bom (d.drop q) := by
+  have href := balancedSkip_skipRef n pos bom d 1 q hbal
+  rcases skipLoop_spec _ r pos bom d .none 1 fuel (Nat.le_refl _) hrel hcap hfuel with ⟨r', hio⟩ | hok
+  · exfalso
+    have := skipLoop_inv NoFaults_closed fuel r .none 1 0 hnf
+    rw [hio] at this
+    exact this.2.2 rfl
+  · unfold SkipOut at hok
+    rw [href] at hok
+    obtain ⟨r', h1, h2, _⟩ := hok
+    exact ⟨r', h1, h2⟩
+
+/-- **C20, `skip_container`**: under every schedule (short reads, transient and persistent faults), slice reader or
+buffer ≥ 3, `skip_container` either reports an I/O error or does exactly what the fault-free call does: it stops right
+after the matching close of the bytewise reference (reader related to the rest), or reports `Eof` when the input ends
+first.  It never lands anywhere else and never reports success without the matching close. -/
+theorem C20_text_skip_container (r : Reader) (pos : Nat) (bom : Bom) (d : Bytes) (fuel : Nat)
+    (hrel : Rel r pos bom d) (hcap : r.cap = 0 ∨ 3 ≤ r.cap) (hfuel : r.src.rest.length + 1 ≤ fuel) :
+    (∃ r', skipContainer fuel r = .err r' .io) ∨ SkipOut (skipContainer fuel r) r.cap pos bom d .none 1 :=
+  skipLoop_spec _ r pos bom d .none 1 fuel (Nat.le_refl _) hrel hcap hfuel
+
+-- `{ "}" #}\n b="\"}" } c` after the first Open: token counting and the skipper both land on ` c`
+example : balancedSkip 20 1 .unknown [32, 34, 125, 34, 32, 35, 125, 10, 32, 98, 61, 34, 92, 34, 125, 34, 32, 125, 32, 99] 1 = some 18 := by
+  decide +kernel
+
+end Jomini.TextReader
+
+namespace Jomini.TextReader
+open Jomini Jomini.TextReader.Spec Jomini.TextReader.Swar
+
+/-! ### skip_unquoted_value -/
+
+def shiftU (k : Nat) : SkipU → SkipU
+  | .open_ p => .open_ (p + k)
+  | x => x
+
+theorem skipUScan_shift (l : Bytes) (i k : Nat) : skipUScan l (i + k) = shiftU k (skipUScan l i) := by
+  induction l generalizing i with
+  | nil => simp [skipUScan, shiftU]
+  | cons c l ih =>
+    simp only [skipUScan]
+    split; · simp [shiftU]
+    split
+    · rw [show i + k + 1 = (i + 1) + k by omega]; exact ih (i + 1)
+    · simp [shiftU]
+
+theorem skipUScan_append (w b : Bytes) (i : Nat) :
+    skipUScan (w ++ b) i = match skipUScan w i with | .windowEnd => skipUScan b (i + w.length) | x => x := by
+  induction w generalizing i with
+  | nil => simp [skipUScan]
+  | cons c w ih =>
+    simp only [List.cons_append, skipUScan]
+    split; · rfl
+    split
+    · rw [ih (i + 1)]; simp; cases skipUScan w (i + 1) <;> simp <;> congr 1 <;> omega
+    · rfl
+
+theorem skipUScan_open_bounds {l : Bytes} {i p : Nat} (h : skipUScan l i = .open_ p) :
+    i ≤ p ∧ p < i + l.length ∧ l[p - i]? = some 123 ∧ ∀ x ∈ l.take (p - i), isBlank x = true := by
+  induction l generalizing i with
+  | nil => simp [skipUScan] at h
+  | cons c l ih =>
+    simp only [skipUScan] at h
+    split at h
+    · rename_i hc
+      simp only [SkipU.open_.injEq] at h; subst h
+      simp; exact eq_of_beq hc
+    split at h
+    · rename_i _ hb
+      obtain ⟨h1, h2, h3, h4⟩ := ih h
+      refine ⟨by omega, by simp; omega, ?_, ?_⟩
+      · have : p - i = (p - (i + 1)) + 1 := by omega
+        rw [this]; simpa using h3
+      · have : p - i = (p - (i + 1)) + 1 := by omega
+        rw [this]
+        intro x hx; simp at hx
+        rcases hx with rfl | hx
+        · exact hb
+        · exact h4 x hx
+    · simp at h
+
+theorem skipUScan_windowEnd_blank {l : Bytes} {i : Nat} (hs : skipUScan l i = .windowEnd) : ∀ y ∈ l, isBlank y = true := by
+  induction l generalizing i with
+  | nil => simp
+  | cons c w ihw =>
+    simp only [skipUScan] at hs
+    split at hs
+    · simp at hs
+    split at hs
+    · rename_i _ hb
+      intro y hy; simp at hy; rcases hy with rfl | hy
+      · exact hb
+      · exact ihw hs y hy
+    · simp at hs
+
+/-- the `\\n\\t\\t\\t` word test of `skip_unquoted_value` only skips four blanks: one iteration is the plain blank scan of
+the window -/
+theorem skipUnquotedValue_unfold (f : Nat) (r : Reader) :
+    skipUnquotedValue (f + 1) r =
+      match skipUScan r.win 0 with
+      | .open_ p =>
+        match advance r (p + 1) with
+        | some r' => skipContainer (f + 1) r'
+        | none => .panic
+      | .stop => .ok r ()
+      | .windowEnd =>
+        match advance r r.win.length with
+        | none => .panic
+        | some r0 =>
+          match fillBuf r0 with
+          | (r1, .ok 0) => .ok r1 ()
+          | (r1, .ok _) => skipUnquotedValue f r1
+          | (r1, .full) => .err r1 .full
+          | (r1, .io) => .err r1 .io := by
+  rw [skipUnquotedValue]
+  rcases hw : r.win with _ | ⟨b0, _ | ⟨b1, _ | ⟨b2, _ | ⟨b3, tl⟩⟩⟩⟩
+  · rfl
+  · rfl
+  · rfl
+  · rfl
+  · simp only
+    by_cases h : (b0 == 10 && b1 == 9 && b2 == 9 && b3 == 9) = true
+    · simp only [h, if_true]
+      simp only [Bool.and_eq_true, beq_iff_eq] at h
+      obtain ⟨⟨⟨rfl, rfl⟩, rfl⟩, rfl⟩ := h
+      have e : skipUScan (10 :: 9 :: 9 :: 9 :: tl) 0 = skipUScan tl 4 := by simp [skipUScan, isBlank]
+      rw [e]; rfl
+    · simp only [h, Bool.false_eq_true, if_false]; rfl
+
+/-- what `skip_unquoted_value` must do on the remaining input `d` -/
+def SkipUOut (res : Res Unit) (pos : Nat) (bom : Bom) (d : Bytes) (n : Nat) : Prop :=
+  match skipUScan d 0 with
+  | .open_ p => ∀ q, balancedSkip n (pos + p + 1) bom (d.drop (p + 1)) 1 = some q →
+      ∃ r', res = .ok r' () ∧ Rel r' (pos + p + 1 + q) bom (d.drop (p + 1 + q))
+  | .stop => ∃ r' j, res = .ok r' () ∧ Rel r' (pos + j) bom (d.drop j) ∧ ∀ x ∈ d.take j, isBlank x = true
+  | .windowEnd => ∃ r', res = .ok r' () ∧ Rel r' (pos + d.length) bom []
+
+theorem skipU_spec (m : Nat) : ∀ (r : Reader) (pos : Nat) (bom : Bom) (d : Bytes) (n fuel : Nat),
+    r.src.rest.length ≤ m → Rel r pos bom d → NoFaults r.src.sched → (r.cap = 0 ∨ 3 ≤ r.cap) → m + 1 ≤ fuel →
+    SkipUOut (skipUnquotedValue fuel r) pos bom d n := by
+  induction m with
+  | zero =>
+    intro r pos bom d n fuel hm hrel hnf hcap hfuel
+    obtain ⟨f, rfl⟩ : ∃ f, fuel = f + 1 := ⟨fuel - 1, by omega⟩
+    have he : r.src.rest = [] := List.eq_nil_of_length_eq_zero (by omega)
+    have hd : d = r.win := by rw [← hrel.data, he]; simp
+    rw [skipUnquotedValue_unfold]
+    unfold SkipUOut
+    rw [hd]
+    cases hs : skipUScan r.win 0 with
+    | open_ p =>
+      simp only
+      intro q hq
+      obtain ⟨h1, h2, _, _⟩ := skipUScan_open_bounds hs
+      obtain ⟨r', ha, hrel', _, hs', hc'⟩ := hrel.advance (p + 1) (by omega)
+      simp only [ha]
+      rw [hd] at hrel'
+      have := C09_text_skip r' (pos + (p + 1)) bom _ n q (f + 1) hrel' (by rw [hs']; exact hnf) (by rw [hc']; exact hcap)
+        (by rw [hs', he]; simp) (by rw [show pos + (p + 1) = pos + p + 1 by omega]; exact hq)
+      obtain ⟨r'', h3, h4⟩ := this
+      refine ⟨r'', h3, ?_⟩
+      rw [show pos + p + 1 + q = pos + (p + 1) + q by omega, ← List.drop_drop]
+      exact h4
+    | stop =>
+      simp only
+      exact ⟨r, 0, rfl, by simpa [hd] using hrel, by simp⟩
+    | windowEnd =>
+      simp only
+      obtain ⟨r0, ha, hrel0, hw0, hs0, hc0⟩ := hrel.advance r.win.length (Nat.le_refl _)
+      simp only [ha]
+      have hw0' : r0.win = [] := by rw [hw0]; simp
+      rcases hrel0.fill with ⟨rio, hf, _, hnn⟩ | ⟨hf, h1, h2⟩ | ⟨_, r1, hf, hrel1, _⟩ | ⟨hne, _⟩
+      · exact absurd (by rw [hs0]; exact hnf) hnn
+      · exfalso; rw [hw0'] at h2; simp at h2; exact h1 h2
+      · rw [hf]; simp only
+        refine ⟨r1, rfl, ?_⟩
+        rw [hd] at hrel1; simpa using hrel1
+      · exact absurd (by rw [hs0]; exact he) hne
+  | succ m ih =>
+    intro r pos bom d n fuel hm hrel hnf hcap hfuel
+    obtain ⟨f, rfl⟩ : ∃ f, fuel = f + 1 := ⟨fuel - 1, by omega⟩
+    have hd : d = r.win ++ r.src.rest := hrel.data.symm
+    have happ := skipUScan_append r.win r.src.rest 0
+    rw [← hd] at happ
+    rw [skipUnquotedValue_unfold]
+    unfold SkipUOut
+    cases hs : skipUScan r.win 0 with
+    | open_ p =>
+      rw [hs] at happ; simp only at happ; rw [happ]
+      simp only
+      intro q hq
+      obtain ⟨h1, h2, _, _⟩ := skipUScan_open_bounds hs
+      obtain ⟨r', ha, hrel', _, hs', hc'⟩ := hrel.advance (p + 1) (by omega)
+      simp only [ha]
+      have := C09_text_skip r' (pos + (p + 1)) bom _ n q (f + 1) hrel' (by rw [hs']; exact hnf) (by rw [hc']; exact hcap)
+        (by rw [hs']; omega) (by rw [show pos + (p + 1) = pos + p + 1 by omega]; exact hq)
+      obtain ⟨r'', h3, h4⟩ := this
+      refine ⟨r'', h3, ?_⟩
+      rw [show pos + p + 1 + q = pos + (p + 1) + q by omega, ← List.drop_drop]
+      exact h4
+    | stop =>
+      rw [hs] at happ; simp only at happ; rw [happ]
+      simp only
+      exact ⟨r, 0, rfl, by simpa using hrel, by simp⟩
+    | windowEnd =>
+      rw [hs] at happ; simp only [Nat.zero_add] at happ
+      obtain ⟨r0, ha, hrel0, hw0, hs0, hc0⟩ := hrel.advance r.win.length (Nat.le_refl _)
+      simp only [ha]
+      have hw0' : r0.win = [] := by rw [hw0]; simp
+      have hdd : d.drop r.win.length = r.src.rest := by rw [hd]; simp
+      rw [hdd] at hrel0
+      rcases hrel0.fill with ⟨rio, hf, _, hnn⟩ | ⟨hf, h1, h2⟩ | ⟨he0, r1, hf, hrel1, _⟩ | ⟨hne, r1, k, hf, hrel1, hk, hw1, hr1, hc1, hnf1⟩
+      · exact absurd (by rw [hs0]; exact hnf) hnn
+      · exfalso; rw [hw0'] at h2; simp at h2; exact h1 h2
+      · rw [hf]; simp only
+        have he : r.src.rest = [] := by rw [← hs0]; exact he0
+        rw [happ, he]; simp only [skipUScan]
+        refine ⟨r1, rfl, ?_⟩
+        rw [he] at hrel1
+        have : d.length = r.win.length := by rw [hd, he]; simp
+        rw [this]; exact hrel1
+      · rw [hf]; simp only
+        rw [hs0] at hk hr1
+        have hl1 : r1.src.rest.length ≤ m := by rw [hr1]; simp; omega
+        have hih := ih r1 (pos + r.win.length) bom r.src.rest n f hl1 hrel1 (hnf1 (by rw [hs0]; exact hnf))
+          (by rw [hc1, hc0]; exact hcap) (by omega)
+        unfold SkipUOut at hih
+        rw [happ]
+        have hsh := skipUScan_shift r.src.rest 0 r.win.length
+        simp only [Nat.zero_add] at hsh
+        rw [hsh]
+        cases hx : skipUScan r.src.rest 0 with
+        | open_ p =>
+          rw [hx] at hih
+          simp only [shiftU] at hih ⊢
+          intro q hq
+          have e1 : pos + (p + r.win.length) + 1 = pos + r.win.length + p + 1 := by omega
+          have e2 : d.drop (p + r.win.length + 1) = r.src.rest.drop (p + 1) := by
+            rw [hd, show p + r.win.length + 1 = r.win.length + (p + 1) by omega, ← List.drop_drop]; simp
+          rw [e1, e2] at hq
+          obtain ⟨r', h3, h4⟩ := hih q hq
+          refine ⟨r', h3, ?_⟩
+          have e3 : pos + (p + r.win.length) + 1 + q = pos + r.win.length + p + 1 + q := by omega
+          have e4 : d.drop (p + r.win.length + 1 + q) = r.src.rest.drop (p + 1 + q) := by
+            rw [hd, show p + r.win.length + 1 + q = r.win.length + (p + 1 + q) by omega, ← List.drop_drop]; simp
+          rw [e3, e4]; exact h4
+        | stop =>
+          rw [hx] at hih
+          simp only [shiftU] at hih ⊢
+          obtain ⟨r', j, h3, h4, h5⟩ := hih
+          refine ⟨r', r.win.length + j, h3, ?_, ?_⟩
+          · have e4 : d.drop (r.win.length + j) = r.src.rest.drop j := by rw [hd, ← List.drop_drop]; simp
+            rw [show pos + (r.win.length + j) = pos + r.win.length + j by omega, e4]; exact h4
+          · intro x hx'
+            rw [hd, List.take_append] at hx'
+            simp at hx'
+            rcases hx' with hx' | hx'
+            · -- the whole window was blank
+              exact skipUScan_windowEnd_blank hs x (List.mem_of_mem_take hx')
+            · exact h5 x hx'
+        | windowEnd =>
+          rw [hx] at hih
+          simp only [shiftU] at hih ⊢
+          obtain ⟨r', h3, h4⟩ := hih
+          refine ⟨r', h3, ?_⟩
+          have : pos + d.length = pos + r.win.length + r.src.rest.length := by rw [hd]; simp; omega
+          rw [this]; exact h4
+
+/-- **C09 (text), `skip_unquoted_value`.**  Exact condition: the container is skipped iff only blank bytes (space, tab,
+LF, CR, `;`) lie between the scalar just read and a `{` (`skipUScan d 0 = open_ p`, `p` = number of those blanks).
+Then — under every fault-free schedule, slice reader or buffer ≥ 3 — the reader lands exactly after the close that
+token counting finds (`balancedSkip` on the bytes after the `{`).  In every other case nothing but blanks is consumed:
+in particular a `#` comment between the scalar and the `{` stops it (the recorded finding `skipu-comment-before-brace`),
+and the container is then NOT skipped. -/
+theorem C09_text_skipu (r : Reader) (pos : Nat) (bom : Bom) (d : Bytes) (n fuel : Nat)
+    (hrel : Rel r pos bom d) (hnf : NoFaults r.src.sched) (hcap : r.cap = 0 ∨ 3 ≤ r.cap)
+    (hfuel : r.src.rest.length + 1 ≤ fuel) :
+    SkipUOut (skipUnquotedValue fuel r) pos bom d n :=
+  skipU_spec _ r pos bom d n fuel (Nat.le_refl _) hrel hnf hcap hfuel
+
+-- ` \n{ 1 } b`: two blanks, then the container
+example : skipUScan [32, 10, 123, 32, 49, 32, 125, 32, 98] 0 = .open_ 2 := by rfl
+-- ` #k\n{ 1 } b`: the comment stops it
+example : skipUScan [32, 35, 107, 10, 123, 32, 49, 32, 125, 32, 98] 0 = .stop := by rfl
 
 end Jomini.TextReader
